@@ -3,6 +3,7 @@
 import MagpyVerif.Model.TrimeshBatch
 import MagpyVerif.Model.TrimeshSum
 import MagpyVerif.Model.TrimeshInside
+import MagpyVerif.Model.MeshPipeline
 import Driver.KernFam
 import Driver.MeshIntersectFam
 
@@ -73,6 +74,32 @@ def run : P String := do
       let nf ← nat
       let fs ← many nf (do pure ((← v3), (← v3), (← v3)))
       pure (out (startPointOutside (meshVerts fs)))
+  | "reorient" => do
+      -- fix_trimesh_orientation + vertices[faces] in IEEE double: <nverts> <verts…> <nfaces> <faces…>
+      let nv ← nat
+      let vs ← many nv v3
+      let nf ← nat
+      let fs ← many nf (do pure (← nat, ← nat, ← nat))
+      let m := getInwardsMask vs fs
+      let fixed := fixTrimeshOrientation vs fs
+      let msh := reorientedMesh vs fs
+      pure ("reorient mask " ++ String.join (m.map fun b => if b then "1" else "0") ++ " faces " ++
+        " ".intercalate (fixed.map fun f => s!"{f.1},{f.2.1},{f.2.2}") ++ " mesh " ++
+        " ".intercalate (msh.map fun t => s!"{out t.1} {out t.2.1} {out t.2.2}"))
+  | "meshfield" => do
+      -- the whole chain for one observer: <field> <nverts> <verts…> <nfaces> <faces…> <pol> <obs>:
+      -- reorientation, vertices[faces], BHJM_magnet_trimesh (one row) with the modelled inside test
+      let f ← field
+      let nv ← nat
+      let vs ← many nv v3
+      let nf ← nat
+      let fs ← many nf (do pure (← nat, ← nat, ← nat))
+      let p ← v3
+      let o ← v3
+      let msh := reorientedMesh vs fs
+      let row : MeshRow Float := { faces := msh, obs := o, pol := p }
+      let r := bhjmTrimesh f (fun _ => (0 : Nat)) (fun _ x => maskInsideTrimesh msh x) [row]
+      pure (s!"{maskInsideTrimesh msh o} " ++ " ".intercalate (r.map out))
   | "segfacet" => MeshIntersectFam.segfacet
   | "selfint" => MeshIntersectFam.selfint
   | t => throw s!"unknown trimesh command {t}"
